@@ -1020,6 +1020,12 @@ func (t *tr) expr(e ast.Expr) (string, T) {
 		}
 		t.fail(x, "identifier %s", x.Name)
 	case *ast.TypeAssertExpr:
+		if ext := t.findExt(calleeText(t.p, x, t.recvName)); ext != nil && ext.Value != "" {
+			for _, st := range ext.Stmts {
+				t.emit("%s", subst(st, t.recvLean(), nil))
+			}
+			return subst(ext.Value, t.recvLean(), nil), ext.T
+		}
 		if ext, h := t.wildExt(x, ""); ext != nil && ext.Value != "" {
 			return subst(ext.Value, t.recvLean(), []string{h}), ext.T
 		}
